@@ -166,9 +166,15 @@ def run_check(pid, tier, seed, replay=None, budget_s=None):
             explore(prop.gen(tier, rng.fork("gen")), "gen")
 
     broken = [o for o in obligations if not o["ok"]]
-    if impl_ok and not stats.spec_fail and (broken or stats.disagree) and tier != "thorough" and not replay:
-        # wider search for a failing input (thorough-tier scopes), bounded in time
-        log("[%s] obligation broken or correspondence disagreement: running the wider search" % pid)
+    changed_src = core.changed_anchor_files(pid)
+    if impl_ok and not stats.spec_fail and (broken or stats.disagree or changed_src) and tier != "thorough" and not replay:
+        # wider search for a failing input (thorough-tier scopes), bounded in time.  It also runs when the
+        # source files the property is anchored in differ from the tree the model was validated against
+        # (FINGERPRINTS.json): that is no alarm by itself, only a reason to look as deeply as the thorough tier.
+        if broken or stats.disagree:
+            log("[%s] obligation broken or correspondence disagreement: running the wider search" % pid)
+        else:
+            log("[%s] anchored sources changed since the model was validated (%s): deepening the exploration" % (pid, ", ".join(changed_src)))
         deadline = time.time() + prop.SEARCH_BUDGET_S
         explore(prop.gen("thorough", rng.fork("search")), "search", max(1, prop.BATCH // 4))
 
@@ -240,6 +246,7 @@ def run_check(pid, tier, seed, replay=None, budget_s=None):
         "observation_classes": dict(stats.obsmix),
         "branches_missed": [b for b in prop.EXPECTED_CLASSES if stats.obsmix.get(b, 0) == 0] if impl_ok and not replay else [],
         "known_findings_reported": sorted(reported_classes),
+        "anchored_sources_changed_since_validation": changed_src,
         "exhaustive": False,
         "explanation": prop.EXPLANATION,
     }
